@@ -37,6 +37,7 @@ import (
 	"encoding/json"
 	"fmt"
 	"html"
+	"regexp"
 	"sort"
 	"strconv"
 	"strings"
@@ -58,8 +59,9 @@ const prop = "C05"
 
 // Known findings (open): input regions the generators avoid by construction while they are open.
 const (
-	kfFalsy  = "C05-falsy-bound-prop-dropped"   // :p="x" with x in {0, 0.0, false, "", "false"}
-	kfNested = "C05-shorthand-inside-component" // <kebab-tag> written inside a component file
+	kfFalsy  = "C05-falsy-bound-prop-dropped"                // :p="x" with x in {0, 0.0, false, "", "false"}
+	kfNested = "C05-shorthand-inside-component"              // <kebab-tag> written inside a component file
+	kfBraces = "C05-mustache-ignored-next-to-closing-braces" // attribute text with mustaches AND a further }} (nested JSON objects closing)
 )
 
 // ---------------------------------------------------------------------------------------------
@@ -70,6 +72,8 @@ const (
 //
 //	static: NAME="Text"            interp: NAME="Text{{ Path }}Post"
 //	bind:   :NAME="Path"           vbind:  v-bind:NAME="Path"
+//	json:   NAME='Text'  where Text is a JSON object / array written in the template, with
+//	        {{ path }} mustaches inside its string values (decoded after interpolation)
 type Prop struct {
 	Name string `json:"name"`
 	Mode string `json:"mode"`
@@ -270,17 +274,27 @@ type Comp struct {
 	// NullAs: how a null front-matter value (vals kind "nil") is spelled: "" = `key: null`,
 	// "empty" = `key:`, "tilde" = `key: ~`.
 	NullAs string `json:"null_as,omitempty"`
-	Req    []Req  `json:"req,omitempty"`
-	Incs   []Inc  `json:"incs,omitempty"`
+	// File-level spelling: EOL "crlf" = the whole file has CRLF line endings; Fence = blanks after
+	// the front-matter fences: "" none, "open", "close", "both" (two spaces).
+	EOL   string `json:"eol,omitempty"`
+	Fence string `json:"fence,omitempty"`
+	Req   []Req  `json:"req,omitempty"`
+	Incs  []Inc  `json:"incs,omitempty"`
 }
 
 // Case is a file set plus page data.
 type Case struct {
-	Names []string          `json:"names"`           // the names every block prints (besides u0)
-	Print []string          `json:"print,omitempty"` // further includer variables every block prints (never shadowed)
-	Data  map[string]vals.V `json:"data,omitempty"`
-	Comps []Comp            `json:"comps"`
-	Page  []Inc             `json:"page"`
+	Names []string `json:"names"`           // the names every block prints (besides u0)
+	Print []string `json:"print,omitempty"` // further includer variables every block prints (never shadowed)
+	// Reads: further expressions the first block of every component prints: "NAME.key", "NAME[i]"
+	// (also chained: NAME.key[0]) and "NAME|len". Asserted where the model has a container
+	// (for len: also an ASCII string) under NAME, left open elsewhere.
+	Reads []string `json:"reads,omitempty"`
+	// PageCRLF: page.vuego is written with CRLF line endings.
+	PageCRLF bool              `json:"page_crlf,omitempty"`
+	Data     map[string]vals.V `json:"data,omitempty"`
+	Comps    []Comp            `json:"comps"`
+	Page     []Inc             `json:"page"`
 	// NestedShort: in the shorthand spelling, includes inside component files are written as
 	// shorthand tags too (otherwise only the page's includes are).
 	NestedShort bool `json:"nested_short,omitempty"`
@@ -333,7 +347,14 @@ func compPath(cp Comp) string { return "components/" + cp.Name + ".vuego" }
 // attribute and v-if - since those go through different lookups of the scope.
 func richBlock(id string) bool { return strings.HasPrefix(id, "C") && strings.HasSuffix(id, ".in") }
 
-func block(id string, names []string) string {
+func readText(expr string) (typ, val string) {
+	if base, isLen := strings.CutSuffix(expr, "|len"); isLen {
+		return "", "{{ " + base + " | len }}"
+	}
+	return "{{ " + expr + " | type }}", "{{ " + expr + " | json }}"
+}
+
+func block(id string, names []string, reads ...string) string {
 	var b strings.Builder
 	for _, n := range names {
 		if richBlock(id) {
@@ -342,12 +363,18 @@ func block(id string, names []string) string {
 		}
 		fmt.Fprintf(&b, `<i data-m="%s:%s" data-t="{{ %s | type }}">{{ %s | json }}</i>`+"\n", id, n, n, n)
 	}
+	if richBlock(id) {
+		for _, e := range reads {
+			typ, val := readText(e)
+			fmt.Fprintf(&b, `<i data-m="%s:=%s" data-t="%s">%s</i>`+"\n", id, e, typ, val)
+		}
+	}
 	return b.String()
 }
 
 func propAttr(p Prop) string {
 	switch p.Mode {
-	case "static":
+	case "static", "json":
 		return fmt.Sprintf(`%s="%s"`, p.Name, html.EscapeString(p.Text))
 	case "interp":
 		return fmt.Sprintf(`%s="%s{{ %s }}%s"`, p.Name, html.EscapeString(p.Text), p.Path, html.EscapeString(p.Post))
@@ -386,7 +413,7 @@ func incTag(c Case, inc Inc, short bool) string {
 func body(c Case, id string, incs []Inc, short bool) string {
 	names := c.printed()
 	var b strings.Builder
-	b.WriteString(block(id+".in", names))
+	b.WriteString(block(id+".in", names, c.Reads...))
 	for j, inc := range incs {
 		if inc.Place == nil {
 			b.WriteString(incTag(c, inc, short))
@@ -448,7 +475,13 @@ func files(c Case, short bool) map[string]string {
 				keys = append(keys, k)
 			}
 			sort.Strings(keys)
-			b.WriteString("---\n")
+			fence := func(which string) string {
+				if cp.Fence == which || cp.Fence == "both" {
+					return "---  \n"
+				}
+				return "---\n"
+			}
+			b.WriteString(fence("open"))
 			for _, k := range keys {
 				v := cp.FM[k].Go()
 				switch {
@@ -460,7 +493,7 @@ func files(c Case, short bool) map[string]string {
 					fmt.Fprintf(&b, "%s: %s\n", k, jsonOf(v))
 				}
 			}
-			b.WriteString("---\n")
+			b.WriteString(fence("close"))
 		}
 		inner := body(c, fmt.Sprintf("C%d", i), cp.Incs, short && c.NestedShort)
 		if cp.Wrap || len(cp.Req) > 0 {
@@ -472,7 +505,14 @@ func files(c Case, short bool) map[string]string {
 		} else {
 			b.WriteString(inner)
 		}
-		out[compPath(cp)] = b.String()
+		txt := b.String()
+		if cp.EOL == "crlf" {
+			txt = strings.ReplaceAll(txt, "\n", "\r\n")
+		}
+		out[compPath(cp)] = txt
+	}
+	if c.PageCRLF {
+		out["page.vuego"] = strings.ReplaceAll(out["page.vuego"], "\n", "\r\n")
 	}
 	return out
 }
@@ -581,6 +621,8 @@ type expMarker struct {
 	undef bool   // not visible: must render exactly like u0 of the same block
 	typ   string // "" = not asserted
 	json  string
+	read  bool // a Reads expression
+	skip  bool // Reads: value left open (only the marker's position is checked)
 	// rich blocks only
 	rich    bool
 	attr    string // expected :data-a text when attrSet
@@ -644,6 +686,9 @@ type stats struct {
 	wrap, nowrap, leakWatch, passThru int
 	omitted                           int
 	jsonDocStatic                     int
+	jsonTpl                           map[int]int // json props by number of mustaches
+	readsAsserted, unbalanced         int
+	crlf, fenceBlanks                 int
 	jsonDocKept                       map[string]int // interpolated / bound strings that are JSON documents (stay strings)
 	nullFM, zeroFM, caseNames         int
 	reqNullFM                         int
@@ -652,7 +697,7 @@ type stats struct {
 }
 
 func newStats() stats {
-	return stats{modes: map[string]int{}, boundKinds: map[string]int{}, bracketText: map[string]int{}, places: map[string]int{}, jsonDocKept: map[string]int{}}
+	return stats{modes: map[string]int{}, boundKinds: map[string]int{}, bracketText: map[string]int{}, places: map[string]int{}, jsonDocKept: map[string]int{}, jsonTpl: map[int]int{}}
 }
 
 type result struct {
@@ -800,6 +845,142 @@ func bindElem(p *Place, sc scope, el mv, i int) scope {
 	return e
 }
 
+var mustacheRe = regexp.MustCompile(`\{\{\s*([^{}|]+?)\s*\}\}`)
+
+// plainText: text that can stand inside a JSON string literal as it is.
+func plainText(s string) bool {
+	for _, r := range s {
+		if !(r == ' ' || r == '.' || r == '-' || r >= '0' && r <= '9' || r >= 'a' && r <= 'z' || r >= 'A' && r <= 'Z') {
+			return false
+		}
+	}
+	return true
+}
+
+// substMustaches replaces every {{ path }} of text by the text of the scalar found under path.
+func substMustaches(text string, sc scope) (out string, why string) {
+	out = mustacheRe.ReplaceAllStringFunc(text, func(m string) string {
+		path := mustacheRe.FindStringSubmatch(m)[1]
+		v, ok := sc.resolve(path)
+		if !ok {
+			why = "mustache inside a json prop refers to a name that is not visible"
+			return ""
+		}
+		txt, ok := scalarText(v.v)
+		if !ok || !plainText(txt) {
+			why = "mustache inside a json prop renders something that cannot stand inside a JSON string as it is"
+			return ""
+		}
+		return txt
+	})
+	if strings.Contains(out, "{{") {
+		why = "unsupported mustache inside a json prop"
+	}
+	return out, why
+}
+
+// unbalanced is the region of the finding kfBraces: besides its mustaches the attribute text has
+// further "{{" or "}}" (a JSON literal whose nested objects close with "}}").
+func unbalanced(text string) bool {
+	rest := mustacheRe.ReplaceAllString(text, "")
+	return mustacheRe.MatchString(text) && (strings.Contains(rest, "}}") || strings.Contains(rest, "{{"))
+}
+
+// avoidBraces rewrites every json prop of the case out of the region of kfBraces (a blank between
+// the closing braces keeps the same JSON document) and returns the number of rewrites.
+func avoidBraces(c *Case) int {
+	n := 0
+	fix := func(incs []Inc) {
+		for i := range incs {
+			for j := range incs[i].Props {
+				p := &incs[i].Props[j]
+				if p.Mode != "json" || !unbalanced(p.Text) {
+					continue
+				}
+				var ms []string
+				t := mustacheRe.ReplaceAllStringFunc(p.Text, func(m string) string { ms = append(ms, m); return "\x00" })
+				for strings.Contains(t, "}}") {
+					t = strings.ReplaceAll(t, "}}", "} }")
+				}
+				for strings.Contains(t, "{{") {
+					t = strings.ReplaceAll(t, "{{", "{ {")
+				}
+				for _, m := range ms {
+					t = strings.Replace(t, "\x00", m, 1)
+				}
+				p.Text = t
+				n++
+			}
+		}
+	}
+	fix(c.Page)
+	for i := range c.Comps {
+		fix(c.Comps[i].Incs)
+	}
+	return n
+}
+
+// readExpr evaluates a Reads expression in sc; ok=false where the result is left open.
+func readExpr(expr string, sc scope) (val any, typed, ok bool) {
+	base, isLen := strings.CutSuffix(expr, "|len")
+	name := base
+	if i := strings.IndexAny(base, ".["); i >= 0 {
+		name = base[:i]
+	}
+	cur, has := sc[name]
+	if !has || cur.v == nil {
+		return nil, false, false
+	}
+	v := cur.v
+	rest := base[len(name):]
+	for rest != "" {
+		switch {
+		case rest[0] == '.':
+			end := strings.IndexAny(rest[1:], ".[")
+			if end < 0 {
+				end = len(rest) - 1
+			}
+			key := rest[1 : 1+end]
+			rest = rest[1+end:]
+			m, isMap := v.(map[string]any)
+			if !isMap {
+				return nil, false, false
+			}
+			if v, has = m[key]; !has || v == nil {
+				return nil, false, false
+			}
+		case rest[0] == '[':
+			end := strings.IndexByte(rest, ']')
+			if end < 0 {
+				return nil, false, false
+			}
+			idx, err := strconv.Atoi(rest[1:end])
+			rest = rest[end+1:]
+			l, isList := v.([]any)
+			if err != nil || !isList || idx < 0 || idx >= len(l) || l[idx] == nil {
+				return nil, false, false
+			}
+			v = l[idx]
+		default:
+			return nil, false, false
+		}
+	}
+	if !isLen {
+		return v, cur.typed, true
+	}
+	switch x := v.(type) {
+	case []any:
+		return len(x), true, true
+	case map[string]any:
+		return len(x), true, true
+	case string:
+		if plainText(x) {
+			return len(x), true, true
+		}
+	}
+	return nil, false, false
+}
+
 // evalProps evaluates an include's attributes in the includer scope.
 func evalProps(props []Prop, sc scope, r *result) map[string]mv {
 	out := map[string]mv{}
@@ -823,6 +1004,25 @@ func evalProps(props []Prop, sc scope, r *result) map[string]mv {
 				r.st.bracketText["static"]++
 			}
 			out[p.Name] = mv{p.Text, true}
+		case "json":
+			// a JSON object / array written in the template (text starting with { or [, not with
+			// {{) is decoded after its mustaches have been interpolated
+			full, why := substMustaches(p.Text, sc)
+			dec, isDoc := jsonDoc(full)
+			switch {
+			case why != "":
+				r.vague = why
+			case !looksJSON(p.Text) || strings.HasPrefix(p.Text, "{{") || p.Text != strings.TrimSpace(p.Text):
+				r.vague = "json prop whose text does not start with a literal { or ["
+			case !isDoc:
+				r.vague = "json prop that is not a JSON document after interpolation"
+			default:
+				r.st.jsonTpl[len(mustacheRe.FindAllString(p.Text, -1))]++
+				if unbalanced(p.Text) {
+					r.st.unbalanced++
+				}
+				out[p.Name] = mv{dec, true}
+			}
 		case "interp":
 			v, ok := sc.resolve(p.Path)
 			if !ok {
@@ -916,6 +1116,26 @@ func model(c Case) result {
 			}
 			r.exp = append(r.exp, e)
 		}
+		if richBlock(blk) {
+			for _, ex := range c.Reads {
+				e := expMarker{id: blk + ":=" + ex, block: blk, name: ex, read: true, vif: -1}
+				v, typed, ok := readExpr(ex, sc)
+				switch {
+				case !ok:
+					e.skip = true
+				case strings.HasSuffix(ex, "|len"):
+					e.json = strconv.Itoa(v.(int))
+					r.st.readsAsserted++
+				default:
+					e.json = jsonOf(v)
+					if typed {
+						e.typ = fmt.Sprintf("%T", v)
+					}
+					r.st.readsAsserted++
+				}
+				r.exp = append(r.exp, e)
+			}
+		}
 	}
 	seenInc := map[int][]string{}
 	var walk func(id string, incs []Inc, sc scope, depth int)
@@ -941,6 +1161,12 @@ func model(c Case) result {
 			r.st.instances++
 			if depth >= 1 {
 				r.st.nestedInc++
+			}
+			if cp.EOL == "crlf" && len(cp.FM) > 0 {
+				r.st.crlf++
+			}
+			if cp.Fence != "" && len(cp.FM) > 0 {
+				r.st.fenceBlanks++
 			}
 			if cp.Wrap || len(cp.Req) > 0 {
 				r.st.wrap++
@@ -1154,6 +1380,9 @@ func judge(what string, out string, err error, m result) error {
 		if g.ID != e.id {
 			return fmt.Errorf("%s: marker #%d is %s, want %s (include tree rendered differently)", what, i, g.ID, e.id)
 		}
+		if e.skip {
+			continue
+		}
 		if e.undef {
 			if e.name == undefName {
 				continue
@@ -1301,6 +1530,14 @@ func classify(c Case) (bool, []string) {
 	for _, md := range []string{"interp", "bound"} {
 		add(s.jsonDocKept[md] > 0, "json-document-string-kept-"+md)
 	}
+	for k, n := range s.jsonTpl {
+		add(n > 0, fmt.Sprintf("json-literal-prop-with-%d-mustaches", k))
+	}
+	add(s.readsAsserted > 0, "path/len-read-asserted")
+	add(s.unbalanced > 0, "json-literal-with-mustaches-and-closing-}}")
+	add(s.crlf > 0, "frontmatter-file-crlf")
+	add(s.fenceBlanks > 0, "frontmatter-fence-trailing-blanks")
+	add(c.PageCRLF, "page-crlf")
 	add(s.nullFM > 0, "frontmatter-null")
 	add(s.zeroFM > 0, "frontmatter-zeroish")
 	add(s.caseNames > 0, "required-name-with-uppercase")
@@ -1478,6 +1715,14 @@ func genProps(t *rapid.T, g *valGen, names []string, label string, pl *Place) []
 			case "{": // a JSON document
 				txt = rapid.SampledFrom(jsonDocs).Draw(t, l+".jsondoc")
 			}
+			if rapid.IntRange(0, 3).Draw(t, l+".jsontpl") == 0 {
+				// a JSON literal with mustaches inside its string values
+				jt := rapid.SampledFrom(jsonTemplates).Draw(t, l+".tpl")
+				txt = strings.ReplaceAll(jt.text, "{{ P }}", "{{ "+src(interpSources)+" }}")
+				txt = strings.ReplaceAll(txt, "{{ Q }}", "{{ "+src(interpSources)+" }}")
+				out = append(out, Prop{Name: n, Mode: "json", Text: txt})
+				break
+			}
 			out = append(out, Prop{Name: n, Mode: "static", Text: txt})
 		case m < 13:
 			g.n++
@@ -1500,6 +1745,20 @@ func genProps(t *rapid.T, g *valGen, names []string, label string, pl *Place) []
 		}
 	}
 	return out
+}
+
+// jsonTemplates: JSON objects / arrays written in the template with 0..2 mustaches (P, Q) inside
+// string values, and the reads that look into the decoded value.
+var jsonTemplates = []struct {
+	text  string
+	reads []string
+}{
+	{`{"name": "{{ P }}", "age": 7}`, []string{".name", ".age", "|len"}},
+	{`["a", "{{ P }}"]`, []string{"[1]", "[0]", "|len"}},
+	{`{"tags": ["x{{ P }}", "{{ Q }}"], "n": {"m": 1.5}}`, []string{".tags[0]", ".tags[1]", ".n.m", ".tags|len"}},
+	{`["{{ P }}{{ Q }}", 2, true]`, []string{"[0]", "[1]", "|len"}},
+	{`[{"z": "p{{ P }}q"}]`, []string{"[0].z", "|len"}},
+	{`{"k": "plain", "l": [1, 2, 3]}`, []string{".k", ".l[2]", ".l|len"}},
 }
 
 var slotForms = map[string][]string{
@@ -1617,6 +1876,17 @@ func repair(c *Case, avoidFalsy bool) (status []map[string]*nameStatus, excluded
 								}
 							}
 						}
+					case "json":
+						// every mustache must yield plain text in every scope, else it reads ds
+						p.Text = mustacheRe.ReplaceAllStringFunc(p.Text, func(m string) string {
+							path := mustacheRe.FindStringSubmatch(m)[1]
+							if v, ok := sc.resolve(path); ok {
+								if txt, ok := scalarText(v.v); ok && plainText(txt) {
+									return m
+								}
+							}
+							return "{{ ds }}"
+						})
 					case "bind", "vbind":
 						v, ok := sc.resolve(p.Path)
 						if !ok {
@@ -1715,6 +1985,9 @@ func genCase(rec *ev.Rec, known *kf.File) func(t *rapid.T) Case {
 		c.Data["d2"] = g.next(t, "d2", true, true)
 		c.Data["d3"] = g.next(t, "d3", false, true)
 		c.Data["db"] = vals.Str(rapid.SampledFrom(bracketTexts).Draw(t, "db"))
+		g.n++
+		c.Data["ds"] = vals.Str(fmt.Sprintf("s%d", 10+g.n)) // always a plain string
+		c.PageCRLF = rapid.IntRange(0, 4).Draw(t, "pagecrlf") == 0
 		c.Data["dj"] = vals.Str(rapid.SampledFrom(jsonDocs).Draw(t, "dj")) // a string that is a JSON document: stays a string when bound / interpolated
 		// what placed include tags iterate over / test
 		var rows []vals.V
@@ -1747,6 +2020,8 @@ func genCase(rec *ev.Rec, known *kf.File) func(t *rapid.T) Case {
 				}
 			}
 			cp.NullAs = rapid.SampledFrom([]string{"", "empty", "tilde"}).Draw(t, fmt.Sprintf("c%d.nullas", i))
+			cp.EOL = rapid.SampledFrom([]string{"", "", "crlf"}).Draw(t, fmt.Sprintf("c%d.eol", i))
+			cp.Fence = rapid.SampledFrom([]string{"", "", "", "open", "close", "both"}).Draw(t, fmt.Sprintf("c%d.fence", i))
 			if (pool && i == 0) || rapid.IntRange(0, 5).Draw(t, fmt.Sprintf("c%d.big", i)) == 0 {
 				if cp.FM == nil {
 					cp.FM = map[string]vals.V{}
@@ -1809,6 +2084,35 @@ func genCase(rec *ev.Rec, known *kf.File) func(t *rapid.T) Case {
 				comp = c.Page[0].Comp // the same component again, with other props
 			}
 			c.Page = append(c.Page, Inc{Comp: comp, Place: pl, Props: genProps(t, g, c.Names, l, pl)})
+		}
+
+		if known.Open(kfBraces) {
+			for i, nb := 0, avoidBraces(&c); i < nb; i++ {
+				rec.Excluded(kfBraces)
+			}
+		}
+		addReads := func(incs []Inc) {
+			for _, inc := range incs {
+				for _, p := range inc.Props {
+					if p.Mode != "json" {
+						continue
+					}
+					for _, jt := range jsonTemplates {
+						if strings.ReplaceAll(mustacheRe.ReplaceAllString(jt.text, ""), " ", "") != strings.ReplaceAll(mustacheRe.ReplaceAllString(p.Text, ""), " ", "") {
+							continue
+						}
+						for _, rd := range jt.reads {
+							if e := p.Name + rd; len(c.Reads) < 6 && !contains(c.Reads, e) {
+								c.Reads = append(c.Reads, e)
+							}
+						}
+					}
+				}
+			}
+		}
+		addReads(c.Page)
+		for i := range c.Comps {
+			addReads(c.Comps[i].Incs)
 		}
 
 		// bound the size of the render: nested multi-evaluation placements multiply
@@ -2372,6 +2676,91 @@ func enumFMZero(yield func(Case) bool) int {
 	return n
 }
 
+// enumJSONTpl: every JSON-literal template (0..2 mustaches inside string values) x what the
+// mustaches read (a plain string, an int, a name of the includer) x front-matter / includer
+// collisions of the prop's name; the component reads the decoded value as a whole and through
+// paths and len.
+func enumJSONTpl(yield func(Case) bool) int {
+	n := 0
+	srcs := [][2]string{{"d1", "d2"}, {"d2", "d1"}, {"vb2", "d1"}}
+	for ti, jt := range jsonTemplates {
+		for _, sr := range srcs {
+			for z := 0; z < 8; z++ {
+				inData, inFM, nested := z&1 != 0, z&2 != 0, z&4 != 0
+				c := Case{Names: []string{"va1", "vb2"}, Print: []string{"d1"}, Data: fixedData(), NestedShort: true, PageCRLF: (ti+z)%3 == 0,
+					Comps: []Comp{{Name: "CardA", Wrap: z%2 == 0}, {Name: "BoxB"}}}
+				c.Data["vb2"] = vals.Str("who")
+				if inData {
+					c.Data["va1"] = vals.Str("incl")
+				}
+				if inFM {
+					c.Comps[0].FM = map[string]vals.V{"vb2": vals.Str("fm2")}
+				}
+				for _, rd := range jt.reads {
+					c.Reads = append(c.Reads, "va1"+rd)
+				}
+				txt := strings.ReplaceAll(strings.ReplaceAll(jt.text, "{{ P }}", "{{ "+sr[0]+" }}"), "{{ Q }}", "{{ "+sr[1]+" }}")
+				props := []Prop{{Name: "va1", Mode: "json", Text: txt}}
+				if nested {
+					c.Comps[1].Incs = []Inc{{Comp: 0, Props: props}}
+					c.Comps[0], c.Comps[1] = c.Comps[1], c.Comps[0] // BoxB (outer) first
+					c.Comps[0].Incs[0].Comp = 1
+					c.Page = []Inc{{Comp: 0, Props: []Prop{{Name: "vb2", Mode: "static", Text: "outer"}}}}
+				} else {
+					c.Page = []Inc{{Comp: 0, Props: props}}
+				}
+				n++
+				if !yield(c) {
+					return n
+				}
+			}
+		}
+	}
+	return n
+}
+
+// enumSpell: file-level spelling of a component with front-matter: LF / CRLF line endings
+// throughout, blanks after the opening / closing fence; the front-matter must still win over a
+// colliding prop and includer variable, and front-matter-only keys must be defined.
+func enumSpell(yield func(Case) bool) int {
+	n := 0
+	for _, eol := range []string{"", "crlf"} {
+		for _, fence := range []string{"", "open", "close", "both"} {
+			for mi, mode := range []string{"omit", "static", "bind"} {
+				{
+					for z := 0; z < 8; z++ {
+						nullAs := []string{"", "empty", "tilde"}[(mi+z+len(fence))%3]
+						inData, wrap, pageCRLF := z&1 != 0, z&2 != 0, z&4 != 0
+						c := Case{Names: []string{"va1", "vb2", "vc3"}, Print: []string{"d1"}, Data: fixedData(), NestedShort: true, PageCRLF: pageCRLF,
+							Comps: []Comp{{Name: "CardA", Wrap: wrap, EOL: eol, Fence: fence, NullAs: nullAs,
+								FM: map[string]vals.V{"va1": vals.Int(500), "vb2": vals.Nil(), "vc3": vals.Str("only fm")}, Req: nil}}}
+						if wrap {
+							c.Comps[0].Req = []Req{{":required", "va1, vc3"}}
+						}
+						if inData {
+							c.Data["va1"] = vals.Str("incl")
+							c.Data["vb2"] = vals.Str("incl2")
+						}
+						var props []Prop
+						switch mode {
+						case "static":
+							props = []Prop{{Name: "va1", Mode: "static", Text: "st"}, {Name: "vb2", Mode: "static", Text: "st2"}}
+						case "bind":
+							props = []Prop{{Name: "va1", Mode: "bind", Path: "d0"}, {Name: "vb2", Mode: "vbind", Path: "dm"}}
+						}
+						c.Page = []Inc{{Comp: 0, Props: props}}
+						n++
+						if !yield(c) {
+							return n
+						}
+					}
+				}
+			}
+		}
+	}
+	return n
+}
+
 // ---------------------------------------------------------------------------------------------
 // Tests
 // ---------------------------------------------------------------------------------------------
@@ -2402,6 +2791,11 @@ func TestProp(t *testing.T) {
 			if known.Open(kfNested) {
 				c.NestedShort = false
 			}
+			if known.Open(kfBraces) {
+				for k, nb := 0, avoidBraces(&c); k < nb; k++ {
+					rec.Excluded(kfBraces)
+				}
+			}
 			nt, cls := classify(c)
 			return run.Each(rec, kind, c, nt, cls, check)
 		}
@@ -2417,6 +2811,8 @@ func TestProp(t *testing.T) {
 	n6 := enumPool(each("enum-pool"))
 	n7 := enumCase(each("enum-case"))
 	n8 := enumFMZero(each("enum-fmzero"))
+	n9 := enumJSONTpl(each("enum-jsontpl"))
+	n10 := enumSpell(each("enum-spell"))
 	if shard == 0 {
 		for k := 0; k < skipped; k++ {
 			rec.Excluded(kfFalsy)
@@ -2428,7 +2824,7 @@ func TestProp(t *testing.T) {
 		}
 	}
 	if full && !rec.Failed() {
-		rec.Exhaustive(fmt.Sprintf("flat: %d names x {5 prop modes x front-matter x includer x required} (%d); twice: same component twice, 5^4 prop modes x front-matter x includer (%d); chain: depth-3 chain, one name, 10 states per level x includer x leaf required (%d); types: 33 values (16 of them texts starting with [ or { that are not JSON) x 5 modes x 4 collisions + 7 JSON documents as static props (%d); place: 39 placements (loop, slot content, chain member) x 6 ways of passing va1 x front-matter x includer x required (%d); pool: component with 9..12 bindings followed by loop / slot placements, twice (%d); case: 5 names with upper-case letters x front-matter x includer x 4 :required spellings (%d); fmzero: 10 null / zero-ish front-matter values x 5 prop modes x includer x root template x nesting (%d)", run.Pick(2, 3), n1, n2, n3, n4, n5, n6, n7, n8))
+		rec.Exhaustive(fmt.Sprintf("flat: %d names x {5 prop modes x front-matter x includer x required} (%d); twice: same component twice, 5^4 prop modes x front-matter x includer (%d); chain: depth-3 chain, one name, 10 states per level x includer x leaf required (%d); types: 33 values (16 of them texts starting with [ or { that are not JSON) x 5 modes x 4 collisions + 7 JSON documents as static props (%d); place: 39 placements (loop, slot content, chain member) x 6 ways of passing va1 x front-matter x includer x required (%d); pool: component with 9..12 bindings followed by loop / slot placements, twice (%d); case: 5 names with upper-case letters x front-matter x includer x 4 :required spellings (%d); fmzero: 10 null / zero-ish front-matter values x 5 prop modes x includer x root template x nesting (%d); jsontpl: 6 JSON literals with 0..2 mustaches x 3 sources x includer x front-matter x nesting (%d); spell: LF/CRLF x fence blanks x prop mode (null spelling rotating) x includer x root template x page CRLF (%d)", run.Pick(2, 3), n1, n2, n3, n4, n5, n6, n7, n8, n9, n10))
 	}
 
 	run.Rapid(t, rec, "random", genCase(rec, known), classify, check)
